@@ -14,7 +14,12 @@ real `interrogate -od` databases are loaded, EVERY function is called with every
 INT_MIN/INT_MAX and every position in [-1, count+1] + extremes, by-name lookups with every stored, mutated
 and absent name; each call is isolated (a crash or hang costs that call only).  HISTORIES (task "stage"): a lookup
 is answered, a further database is requested and merged, then every stored name is looked up -- all 6 x 6 pairs
-of (lookup function answered first, lookup function used later), with the name maps' fresh bits as spec state."""
+of (lookup function answered first, lookup function used later), with the name maps' fresh bits as spec state.
+FIRST-QUERY histories (task "first"): every function of the interface is the first query after a request (it must
+force the load and see the requested files), a second database is requested and the function is first again; each
+count function is followed by its accessor at every position.  Lookup names include systematic mutations of
+every stored name (leading / trailing '::' and blank, case, prefixes, suffixes, dropped / doubled characters, the
+other name fields of the same record); none may be answered with an entity that does not bear that name."""
 import os, json, time, threading
 from ..common import MachineryError, NCPU
 from .. import build, tlc
@@ -144,6 +149,11 @@ def run_check(ctx):
     build_fptr(fptr, cases, expect, nontrivial, base_path)
     build_db(ctx, table, dbs, real, cases, expect, nontrivial)
     build_stage(stages, cases, expect, nontrivial)
+    firsts = [x for x in recs if x.get("task") == "first"]
+    if len(firsts) != 2 * len(table.qf):
+        raise MachineryError("IdbQuery dump incomplete: %d first-query histories for %d functions" % (len(firsts), len(table.qf)))
+    build_first(firsts, cases, expect, nontrivial)
+    ctx.notes["first_query_histories"] = len(firsts)
     phases["render"] = round(time.time() - t0, 1)
     for r in (uniq[len(uniq) // 2], uniq[-1]):
         ctx.sample(dict(call=UNIQ, table=[[HASH[m["hash"]] + RENDER[0][e["key"]], m["first"] + e["off"]]
@@ -165,7 +175,7 @@ def run_check(ctx):
         if len(out) != len(exp):
             raise MachineryError("driver answered %d of %d queries of case %s" % (len(out), len(exp), cid))
         for qi, (q, o, e) in enumerate(zip(case["queries"], out, exp)):
-            if q[0] == "sweep" and Q.died(o):
+            if q[0] == "sweep" and Q.died(o) and isinstance(e[2], tuple):
                 rid = "retry-%s-%d" % (cid, qi)
                 qs, es = explode(q, e)
                 retry.append({"id": rid, "setup": case["setup"], "queries": qs})
@@ -341,6 +351,62 @@ def build_stage(stages, cases, expect, nontrivial):
         expect[cid] = exp
 
 
+def build_first(firsts, cases, expect, nontrivial):
+    """every function as the FIRST query after a request (it must see the requested files), then a second request
+    and the same function first again; a count function is followed by its accessor at every position"""
+    for n, r in enumerate(firsts):
+        fn, op, rt = r["fn"], r["op"], r["r"]
+
+        def call(arg):
+            if op in ("gcount", "errflag"):
+                return ["c", fn]
+            if op in ("lookup", "uniq"):
+                return ["n", fn, Q.b2s(arg["nm"])]
+            if op in ("at", "atfield", "atflag"):
+                return ["c", fn, arg["i"], arg["n"]]
+            return ["c", fn, arg["i"]]
+        queries, exp = [], []
+        for stage, (arg, ok, cnt, files) in enumerate(((r["arg1"], r["ok1"], r["cnt1"], None),
+                                                       (r["arg2"], r["ok2"], r["cnt2"], r["files2"])), 1):
+            for f in files or []:
+                queries.append(["dbmem", Q.b2s(f)])
+                exp.append(("requesting a further database", [], lambda got: None))
+            q = call(arg)
+            want = [Q._val(v, rt) for v in ok]
+            queries.append(q)
+            exp.append(("%s%s as the first query after request %d" % (fn, tuple(q[2:]), stage), [],
+                        one_of_vals(want, "answer")))
+            nontrivial.add(("f", fn, stage, n % 2))
+            if op == "gcount":
+                pos = list(range(-1, cnt + 2))
+                queries.append(["sweep", r["acc"], pos])
+                exp.append(("%s(n) right after %s() = %d (first query after request %d)" % (r["acc"], fn, cnt, stage), [],
+                            entries(cnt, pos)))
+        cid = "f%d" % n
+        cases.append({"id": cid, "setup": [["dbmem", Q.b2s(f)] for f in r["files1"]], "queries": queries})
+        expect[cid] = exp
+
+
+def one_of_vals(ok, what):
+    def chk(got):
+        if got is None:
+            got = ""
+        return None if any(got == w and isinstance(got, bool) == isinstance(w, bool) for w in ok) else \
+            "%s = %r, the spec allows %r" % (what, got if not isinstance(got, str) or len(got) < 80 else got[:80] + "...",
+                                             [w if not isinstance(w, str) or len(w) < 80 else w[:80] + "..." for w in ok])
+    return chk
+
+
+def entries(cnt, pos):
+    """the accessor answers an entry exactly at the positions 0 .. cnt-1"""
+    def chk(got):
+        if Q.died(got):
+            return Q.describe_death(got)
+        bad = [(p, g) for p, g in zip(pos, got) if (g != 0) != (0 <= p < cnt)]
+        return None if not bad else "the count is %d but the accessor answers %s" % (cnt, dict(bad))
+    return chk
+
+
 def explode(q, e):
     """a sweep as single calls"""
     what, cl, (kind, args, want, ent) = e
@@ -365,6 +431,11 @@ def report(ctx, case, q, o, e, stderr):
     if Q.died(o):
         ctx.violation("%s: %s" % (what, Q.describe_death(o)), dict(payload, observed=o), classes=classes)
         return 1
+    if q[0] == "sweep" and callable(chk):
+        msg = chk(o)
+        if msg:
+            ctx.violation("%s: %s" % (what, msg), dict(payload, observed=o), classes=classes)
+        return len(q[2])
     if isinstance(chk, tuple):
         kind, args, want, ent = chk
         if o == want:
